@@ -374,6 +374,81 @@ fn shared_pipe_slice(ctx: &Ctx) {
 /// subshell whose last status says "killed by N" kills itself with N if N terminates; for every
 /// other N - stop signals, continue, ignored ones, unknown numbers - it must simply exit): each
 /// kind of child terminates, is reaped, and `$?` / `wait` report the status.
+/// The same child-starting scripts read from standard input by a non-interactive and by an
+/// interactive shell (`-i`, with and without job control): an interactive shell runs built-ins
+/// under a watcher for SIGINT, i.e. with a second task waiting for signals next to the one waiting
+/// for the child. Probes, statuses and the process table at the end must be those of the
+/// non-interactive run; nothing may block.
+fn interactive_slice(ctx: &Ctx) {
+    const SCRIPTS: [&str; 14] = [
+        "command /bin/ext a\nprobe k1 \"$?\"\n",
+        "command true\nprobe k1 \"$?\"\ncommand false\nprobe k2 \"$?\"\n",
+        "eval '/bin/ext'\nprobe k1 \"$?\"\n",
+        "command eval '(exit 3)'\nprobe k1 \"$?\"\n",
+        "command command /bin/ext\nprobe k1 \"$?\"\n",
+        "( /bin/ext ); probe k1 \"$?\"\n",
+        "x=$(command /bin/ext); probe k1 \"$?\"\n",
+        "command /bin/ext | command /bin/ext\nprobe k1 \"$?\"\n",
+        "command . /tmp/dotext\nprobe k1 \"$?\"\n",
+        "(exit 4) & wait $!\nprobe k1 \"$?\"\n",
+        "command eval '(exit 5) & wait $!'\nprobe k1 \"$?\"\n",
+        "f() { command /bin/ext; (exit 6); }\nf\nprobe k1 \"$?\"\ncommand f\nprobe k2 \"$?\"\n",
+        "command eval 'x=$( (exit 7) ); probe k0 $?'\nprobe k1 \"$?\"\n",
+        "true | command eval '( probe -s 8 k1 )'\nprobe k2 \"$?\"\n",
+    ];
+    let modes: [&[&str]; 4] = [&[], &["-i"], &["-i", "+m"], &["-m"]];
+    let per = if ctx.quick() { 6 } else { 60 };
+    ctx.par_for(
+        SCRIPTS.len() * per,
+        |i| {
+            let script = SCRIPTS[i / per];
+            let k = i % per;
+            let run = |mode: &[&str]| {
+                let mut a = vec!["yash".to_string()];
+                a.extend(mode.iter().map(|s| s.to_string()));
+                let mut cfg = vsh::VCfg::with_args(a);
+                cfg.extra = vsh::v_probes();
+                cfg.files = vec![("/tmp/dotext".into(), vsh::FileSpec::Regular(b"/bin/ext\n(exit 2)\n".to_vec())), ("/dev/tty".into(), vsh::FileSpec::Regular(Vec::new()))];
+                cfg.stdin_chunks = Some(script.split_inclusive('\n').map(|l| l.as_bytes().to_vec()).collect());
+                cfg.strategy = if k == 0 { Strategy::Fifo } else { Strategy::Random { seed: ctx.seed * 131 + i as u64, preempt_pct: [0, 20, 50][k % 3], max_preempt: 60 } };
+                vsh::run_v(cfg)
+            };
+            let reference = run(modes[0]);
+            let ev = |o: &vsh::VOut| -> Vec<String> { o.events.iter().filter(|e| e.kind == "probe").map(|e| e.args.join(" ")).collect() };
+            for mode in &modes[1..] {
+                let out = run(mode);
+                ctx.eval();
+                ctx.count("interactive_slice_runs", 1);
+                let ctxt = || format!("mode {mode:?}, run #{k}\nscript (on standard input):\n{script}events {:?}; non-interactive run: {:?}\nend {:?}, zombies {:?}, alive {:?}\nstderr:\n{}", ev(&out), ev(&reference), out.end, out.zombies, out.alive, out.err());
+                if reference.end != vsh::End::Done {
+                    ctx.inconclusive.fetch_add(1, std::sync::atomic::Ordering::Relaxed);
+                    return;
+                }
+                if out.end != vsh::End::Done {
+                    ctx.violation("C13:interactive:no-termination", ctxt());
+                    return;
+                }
+                if !out.zombies.is_empty() || !out.alive.is_empty() {
+                    ctx.violation("C13:interactive:children-left", ctxt());
+                    return;
+                }
+                if ev(&out) != ev(&reference) {
+                    ctx.violation("C13:interactive:different-events", ctxt());
+                    return;
+                }
+                ctx.nontrivial(out.trace_hash ^ ((i / per) as u64) << 52);
+            }
+        },
+        |i, msg| {
+            if crate::util::panic_in_repo(&msg) {
+                ctx.violation(format!("C13:panic:{}", msg.split(": ").next().unwrap_or("")), format!("interactive slice case {i}: {msg}"));
+            } else {
+                ctx.violation("harness-panic", format!("interactive slice case {i}: {msg}"));
+            }
+        },
+    );
+}
+
 fn exit_status_sweep(ctx: &Ctx) {
     const KINDS: [(&str, &str); 11] = [
         // children that end through `exit` / `return` rather than by running off their last command
@@ -481,6 +556,7 @@ pub fn run(ctx: &Ctx) {
     crate::checks::c13r::run(ctx);
     harmless_signals_slice(ctx);
     exit_status_sweep(ctx);
+    interactive_slice(ctx);
     shared_pipe_slice(ctx);
     fork_fault_slice(ctx);
     stop_continue_slice(ctx, "C13");
